@@ -3,7 +3,7 @@
        thread spec:  S:<hint>:<inner>   hint = n | b | m<cmd_term>      inner = o | r | c
                      B:<polls>   P (a stop_blocking caller)   I (a command already in flight)
        prints one record per executed step (thread ids that are not enabled are skipped silently):
-         <tid>:<label>><next label>:b<count>0>t<term>d<running=0>[:D<done>][:H<task>][:R<task>]
+         <tid>:<label>><next label>:b<count>0>t<term>d<running=0>[:A1 = start_blocking returned][:D<done>][:H<task>][:R<task>]
        then " | hand=.. redisp=.. th=<current label of every thread> fin=<all finished>"
    explore <max edges> <term0> <thread specs ...>
        breadth-first exploration of the model's state graph (states deduplicated, logs ignored);
@@ -72,6 +72,9 @@ let run (term0 : string) (specs : string list) (sched : string list) : string =
           if Buffer.length buf > 0 then Buffer.add_char buf ' ';
           Buffer.add_string buf
             (Printf.sprintf "%d:%s>%s:%s" tid (label_str (pc_label p)) (label_str (pc_label next)) (obs st'.st_sh));
+          (match ev, p with
+           | EvCasOk (_, _), B_start_cas (_, _, _) -> Buffer.add_string buf ":A1"
+           | _ -> ());
           (match ev with
            | EvDoneLoad b -> Buffer.add_string buf (if b then ":D1" else ":D0")
            | EvHandoff (t, _) -> Buffer.add_string buf (":H" ^ string_of_int (int_of_nat t))
